@@ -409,6 +409,11 @@ pub enum Profile {
     /// unordered pair (d1 <= d2) of depths from 2..=6 threads with light ops on both tables, in
     /// both orders.  Catches defects that need one specific pair of depths.
     Pairs,
+    /// Cross-match style workload: 2..=4 threads at ONE depth issue 2..=4 coverage queries each,
+    /// all drawing their radius from the same two values and their delta_depth from the same two
+    /// values (different positions): repeated identical parameters next to different ones, which
+    /// is what per-layer / per-process memos keyed by radius or delta_depth need to go wrong.
+    Xmatch,
 }
 
 pub fn n_hash(d: u8) -> u64 {
@@ -669,6 +674,38 @@ fn generate_pairs(seed: u64, index: u64) -> Scenario {
     Scenario { threads, faults }
 }
 
+/// Cross-match style scenarios (see [`Profile::Xmatch`]).
+fn generate_xmatch(seed: u64) -> Scenario {
+    let mut rng = Rng::new(seed);
+    let n_threads = rng.range(2, 4) as usize;
+    let d = rng.range(2, 27) as u8;
+    let cs = cell_size(d);
+    let radii = [cs * rng.uniform(0.4, 2.5), if rng.chance(1, 3) { radius_for_root_depth(&mut rng, d.saturating_sub(1)) } else { cs * rng.uniform(0.4, 2.5) }];
+    let dds = [rng.range(1, 2) as u8, rng.range(1, 2) as u8 + if rng.chance(1, 2) { 1 } else { 0 }];
+    let mut threads = Vec::with_capacity(n_threads);
+    for ti in 0..n_threads {
+        let n_ops = rng.range(2, 4) as usize;
+        let mut ops = Vec::with_capacity(n_ops);
+        for _ in 0..n_ops {
+            let (lon, lat) = gen_pos(&mut rng);
+            let lat = lat.max(-1.5).min(1.5);
+            // threads prefer "their" parameters, but mix
+            let r = radii[if rng.chance(3, 4) { ti % 2 } else { (ti + 1) % 2 }];
+            let dd = dds[if rng.chance(3, 4) { ti % 2 } else { (ti + 1) % 2 }].min(29 - d);
+            let op = match rng.below(6) {
+                0 | 1 => Op::K { d, lon, lat, r },
+                2 | 3 => Op::Kc { d, dd, lon, lat, r },
+                4 => Op::E { d, lon, lat, a: r, b: r * 0.6, pa: rng.uniform(0.0, std::f64::consts::PI) },
+                _ => Op::Ec { d, dd, lon, lat, a: r, b: r * 0.6, pa: rng.uniform(0.0, std::f64::consts::PI) },
+            };
+            ops.push(op);
+        }
+        let late = ti > 0 && rng.chance(1, 4);
+        threads.push(ThreadSpec { start: if late { Start::Late } else { Start::Line }, ops });
+    }
+    Scenario { threads, faults: Vec::new() }
+}
+
 /// Range-centred scenarios (see [`Profile::Ranges`]).
 fn generate_ranges(seed: u64) -> Scenario {
     let mut rng = Rng::new(seed);
@@ -762,12 +799,15 @@ pub fn generate(seed: u64, profile: Profile) -> Scenario {
     if profile == Profile::Ranges {
         return generate_ranges(seed);
     }
+    if profile == Profile::Xmatch {
+        return generate_xmatch(seed);
+    }
     let mut rng = Rng::new(seed);
     let (max_threads, max_ops, light) = match profile {
         Profile::Full => (6u64, 4u64, false),
         Profile::Light => (5, 2, true),
         Profile::Tiny => (4, 1, true),
-        Profile::Cover | Profile::Crash | Profile::Ranges | Profile::Pairs => unreachable!(),
+        Profile::Cover | Profile::Crash | Profile::Ranges | Profile::Pairs | Profile::Xmatch => unreachable!(),
     };
     // thread count: biased to small
     let n_threads = match rng.below(10) {
@@ -874,7 +914,7 @@ mod tests {
     use super::*;
     #[test]
     fn roundtrip() {
-        for p in [Profile::Full, Profile::Light, Profile::Tiny, Profile::Cover, Profile::Crash, Profile::Ranges, Profile::Pairs] {
+        for p in [Profile::Full, Profile::Light, Profile::Tiny, Profile::Cover, Profile::Crash, Profile::Ranges, Profile::Pairs, Profile::Xmatch] {
             for s in 0..2000u64 {
                 let sc = generate(derive_seed(1, 2, s), p);
                 let txt = encode(&sc);
